@@ -139,7 +139,7 @@ func soDump(so bondmachine.Shared_instance) string {
 	}
 	t := v.Type()
 	name := strings.ToLower(strings.TrimSuffix(t.Name(), "_instance"))
-	parts := []string{name}
+	parts := []string{}
 	for i := 0; i < t.NumField(); i++ {
 		f := t.Field(i)
 		if f.Name == "Shared_element" {
@@ -156,8 +156,15 @@ func soDump(so bondmachine.Shared_instance) string {
 			for k := 0; k < fv.Len(); k++ {
 				b := fv.Index(k)
 				fs := []string{}
-				for q := 0; q < b.NumField(); q++ {
-					fs = append(fs, strconv.FormatInt(b.Field(q).Int(), 10))
+				for _, fn := range []string{"CP", "Left", "Top", "Width", "Height"} {
+					if bf := b.FieldByName(fn); bf.IsValid() {
+						fs = append(fs, strconv.FormatInt(bf.Int(), 10))
+					} else {
+						fs = append(fs, "?")
+					}
+				}
+				if b.NumField() != 5 {
+					fs = append(fs, fmt.Sprintf("?%dfields", b.NumField()))
 				}
 				boxes = append(boxes, strings.Join(fs, "."))
 			}
@@ -166,6 +173,8 @@ func soDump(so bondmachine.Shared_instance) string {
 			parts = append(parts, fmt.Sprintf("%s=?%s", f.Name, fv.Kind()))
 		}
 	}
+	sort.Strings(parts) // declaration order of the struct fields is irrelevant
+	parts = append([]string{name}, parts...)
 	return strings.Join(parts, "/")
 }
 
